@@ -1305,7 +1305,7 @@ class TexArgs(list):
         >>> arguments[4]
         BraceGroup('arg4')
         """
-        for arg in args:
+        for arg in list(args):
             self.append(arg)
 
     def insert(self, i, arg):
@@ -1385,10 +1385,10 @@ class TexArgs(list):
         self.all.pop(self.__index_in_all(self[index]))
         super().pop(index)
 
-    def pop(self, i):
+    def pop(self, i=-1):
         """Pop argument object at provided index.
 
-        :param int i: Index to pop from the list
+        :param int i: Index to pop from the list (default: the last)
 
         >>> arguments = TexArgs([BraceGroup('arg0'), '[arg2]', '{arg3}'])
         >>> arguments.pop(1)
